@@ -710,3 +710,68 @@ Fixpoint http_clean (st : hstate) (log : list hwire) : bool :=
       | HResultW _ _, _ => http_clean st l
       end
   end.
+
+(* ------------------------------------------------------------------ *)
+(* 5. Where the reply inside a "connection lost" result comes from.
+      slimta/smtp/client.py  Client._flush_pipeline: `if reply.is_error(): self.last_error = reply`
+      (per CONNECTION, never cleared);  slimta/relay/smtp/client.py  SmtpRelayClient._get_error_reply,
+      used by _run's `except SmtpError` arm when the current request is not completed yet:
+      the server's own words if its last error reply was a 421, else a synthetic 421 4.3.0.
+      A connection is seen as the sequence of replies the client READS on it, each tagged with the
+      message (envelope) whose exchange it belongs to. *)
+
+Inductive ecode : Type := E421 | E4xx | E5xx.
+
+Inductive rkind : Type :=
+| RdOk                  (* a non-error reply was read *)
+| RdErr (c : ecode)     (* an error reply was read: becomes Client.last_error *)
+| RdLost.               (* the read failed with an SmtpError (connection closed, bad reply) *)
+
+Record rd : Type := mkRd { rd_msg : N; rd_kind : rkind }.
+
+Definition upd_last (last : option (N * ecode)) (r : rd) : option (N * ecode) :=
+  match rd_kind r with RdErr c => Some (rd_msg r, c) | _ => last end.
+
+(* _get_error_reply: Some k = the reply the server issued during message k's exchange is passed on;
+   None = the synthetic `421 4.3.0 <exception text>` *)
+Definition error_source (last : option (N * ecode)) : option N :=
+  match last with Some (k, E421) => Some k | _ => None end.
+
+(* the rejected variant (seeded change C19-7): any 4xx last_error is passed on *)
+Definition error_source_any4xx (last : option (N * ecode)) : option N :=
+  match last with Some (k, E421) | Some (k, E4xx) => Some k | _ => None end.
+
+(* for every failed read: (the message being delivered, where its error reply comes from) *)
+Fixpoint lost_sources (pick : option (N * ecode) -> option N) (last : option (N * ecode))
+         (tr : list rd) : list (N * option N) :=
+  match tr with
+  | [] => []
+  | r :: tr' =>
+      match rd_kind r with
+      | RdLost => (rd_msg r, pick last) :: lost_sources pick last tr'
+      | _ => lost_sources pick (upd_last last r) tr'
+      end
+  end.
+
+Definition is_lost (r : rd) : bool := match rd_kind r with RdLost => true | _ => false end.
+
+(* what is assumed of a read trace, on adjacent reads a, b:
+   - nothing is read after a failed read (the client leaves the connection);
+   - after an error reply of message k the next read still belongs to k (a failed transaction is
+     followed by its RSET, a rejected recipient by the rest of the transaction: cf.
+     C19_reset_after_failure / C19_one_message_at_a_time);
+   - a 421 closes the channel (RFC 5321 3.8): the read after it fails *)
+Fixpoint wf_reads (tr : list rd) : bool :=
+  match tr with
+  | [] => true
+  | a :: tr' =>
+      (match tr' with
+       | [] => true
+       | b :: _ =>
+           match rd_kind a with
+           | RdLost => false
+           | RdOk => true
+           | RdErr c => (rd_msg b =? rd_msg a) && (match c with E421 => is_lost b | _ => true end)
+           end
+       end) && wf_reads tr'
+  end.
